@@ -4,6 +4,7 @@
 #include <arpa/inet.h>
 
 time_t VNOW = 1000000;
+int *SIM_ALLOC_PAUSE;
 __thread struct sim *CUR_SIM;
 
 const char *const DEFECT_NAME[D_COUNT] = {
@@ -344,6 +345,7 @@ void sim_snapshot(struct sim *s, const struct rtr_socket *src, struct snap *out)
 {
 	struct snap_ctx c = {s, src, out};
 
+	MON_PAUSE();
 	memset(out, 0, sizeof(*out));
 	pfx_table_for_each_ipv4_record(s->pfxt, snap_cb, &c);
 	pfx_table_for_each_ipv6_record(s->pfxt, snap_cb, &c);
@@ -374,12 +376,14 @@ void sim_snapshot(struct sim *s, const struct rtr_socket *src, struct snap *out)
 		}
 		lrtr_free(res);
 	}
+	MON_RESUME();
 }
 
 void sim_populate_others(struct sim *s, const struct rtr_socket *o1, const struct rtr_socket *o2)
 {
 	s->other[0] = o1;
 	s->other[1] = o2;
+	MON_PAUSE();
 	for (int o = 0; o < 2; o++) {
 		bs_zero(&s->other_p[o]);
 		bs_zero(&s->other_k[o]);
@@ -408,6 +412,7 @@ void sim_populate_others(struct sim *s, const struct rtr_socket *o1, const struc
 			}
 		}
 	}
+	MON_RESUME();
 }
 
 void sim_check_others(struct sim *s, const char *where)
@@ -561,6 +566,7 @@ void cblog_check_against_tables(struct sim *s, const char *where)
 	if (!cb)
 		return;
 	CB_SIM = s;
+	MON_PAUSE();
 	if (cb->enabled_p) {
 		struct cbchk c = {s, 0, 0};
 
@@ -608,6 +614,7 @@ void cblog_check_against_tables(struct sim *s, const char *where)
 			cb->enabled_k = false; /* one report per scenario */
 		}
 	}
+	MON_RESUME();
 }
 
 void cblog_bind(struct sim *s)
